@@ -339,6 +339,30 @@ def judge_traces(ctx, module, cfg, traces, strict=None, shard_lines=6000, label=
             if r['accepted']:
                 accepted += len(scen)
                 break
+            if rounds == 1 and known:
+                # fast path: if the whole shard is accepted once the listed known-finding relaxations are
+                # switched on, every rejection in it is an instance of one of them; find out which
+                allon = dict(strict)
+                for k in known:
+                    allon[k['relaxation']] = True
+                if validate_trace(ctx, module, cfg, p, consts=allon)['accepted']:
+                    hit = []
+                    if len(known) == 1:
+                        hit = list(known)
+                    else:
+                        for k in known:
+                            one = dict(strict)
+                            one[k['relaxation']] = True
+                            if validate_trace(ctx, module, cfg, p, consts=one)['accepted']:
+                                hit = [k]
+                                break
+                        if not hit:
+                            hit = list(known)
+                    for k in hit:
+                        if k['id'] not in [x['id'] for x in ctx.known]:
+                            ctx.known.append(k)
+                    accepted += len(scen)
+                    break
             # locate the scenario holding the rejected line
             line = r['line'] - 1  # index among lines after the header, 1-based
             k = 0
